@@ -3,13 +3,15 @@ package formula
 import "context"
 
 func init() {
+	vpHarnesses["VP_C08_pool"] = VP_C08_pool
 	vpHarnesses["VP_C08_parse"] = VP_C08_parse
 	vpHarnesses["VP_C08_eval"] = VP_C08_eval
 }
 
 func vpUnrelatedWork() {
 	// parse and evaluate unrelated formulas (with assignments, errors and builtins) in between
-	for _, f := range []string{"$z = 1 + 2, [$z, abs(-1)]", "1 +", "q.r.s == null ? 'a' : left('xyz', 1)"} {
+	for _, f := range []string{"$z = 1 + 2, [$z, abs(-1)]", "1 +", "q.r.s == null ? 'a' : left('xyz', 1)", "[round(2.5), roundBank(3.5), ceil(1.2), 7 / 2, 7 % 2]",
+		"regexp('abc', 'b+') ? regexp('x', '(') : 0", "toString(1.50) + lpad('a', '0', 3) + join(['a', 'b'], ',')"} {
 		code, err := ParseSourceCode([]byte(f))
 		if err != nil {
 			continue
@@ -87,4 +89,46 @@ func VP_C08_eval() {
 	vpAssert("C08/eval/tree-unchanged", vpSameImplTree(tree, twin))
 	vpAssert("C08/eval/no-hidden-state-written", vpWrites() == 0)
 	vpReach("C08/eval/done")
+}
+
+// formulas whose result depends on library state that a careless change could
+// share between evaluations: compiled regular expressions (valid and invalid),
+// rounding at the 34-digit working precision (a tie exposed by a subtraction),
+// precision-sensitive division, number formatting
+var vpC08Pool = []string{
+	"regexp(s, '[')", "regexp('xyz', '(') ? 1 : 2", "regexp(s, 'b+')", "[regexp('a', 'a'), regexp('b', 'c')]",
+	"3000000000000000000000000000000001 / 2 - 1500000000000000000000000000000000",
+	"1000000000000000000000000000000000 + 0.5 == 1000000000000000000000000000000000",
+	"1 / 3 * 3 == 1", "round(2.5) + roundBank(2.5) + round(-0.5)", "toString(1 / 3)", "2.5 % 1 + ceil(1.2) + floor(-1.2)",
+}
+
+// C08/pool: state-sensitive formulas evaluated three times in fresh runners,
+// with the unrelated work (which itself rounds, divides and compiles patterns)
+// in between, give the same value or the same error every time.
+func VP_C08_pool() {
+	text := vpC08Pool[vpChoice("f", len(vpC08Pool))]
+	s := vpSymString("s", 1)
+	code, err := ParseSourceCode([]byte(text))
+	vpAssert("C08/pool/parses", err == nil)
+	if err != nil {
+		return
+	}
+	vpFreezeGlobals()
+	eval := func() (interface{}, string) {
+		r := NewRunner()
+		r.SetThis(map[string]interface{}{"s": s})
+		v, e := r.Resolve(context.Background(), code.Expression)
+		return v, vpErrText2(e)
+	}
+	v1, e1 := eval()
+	vpUnrelatedWork()
+	v2, e2 := eval()
+	v3, e3 := eval()
+	vpObserve("pool", text, e1 != "", e2 != "", e3 != "")
+	vpAssert("C08/pool/same-verdict-every-time", (e1 == "") == (e2 == "") && (e2 == "") == (e3 == ""))
+	vpAssert("C08/pool/same-error-every-time", e1 == e2 && e2 == e3)
+	if e1 == "" && e2 == "" && e3 == "" {
+		vpAssert("C08/pool/same-value-every-time", vpDeepEq(v1, v2) && vpDeepEq(v2, v3))
+	}
+	vpReach("C08/pool/done")
 }
